@@ -438,7 +438,9 @@ class IRGenerator:
             raise AssertionError('unhandled type %r' % item)
 
     def _get_base_name(self, input_str, namespace_name):
-        return (input_str.replace('_', '').replace('/', '').lower() +
+        # A pair, so that names of different namespaces cannot run into each
+        # other ('x' in 'team_log' vs 'x_team' in 'log').
+        return (input_str.replace('_', '').replace('/', '').lower(),
                 namespace_name.replace('_', '').lower())
 
     def _add_imports_to_env(self, raw_api):
